@@ -30,17 +30,20 @@ let tokens (s : Stdlib.String.t) : Stdlib.String.t list =
   Stdlib.String.iter (fun c -> if c = ' ' || c = '\n' || c = '\t' || c = '\r' then flush () else Buffer.add_char b c) s;
   flush (); List.rev !l
 
-(* a codec: target status word -> stream -> (re-dump, unread rest) *)
-type codec = n -> stream -> (stream * stream) option
-let mk load dump : codec = fun st toks ->
+(* a codec: target status word -> other target state (Grid: dim_kinds) -> stream -> (re-dump, unread rest) *)
+type codec = n -> nat list -> stream -> (stream * stream) option
+let mk load dump : codec = fun st _ toks ->
   match load st toks with Some (x, rest) -> Some (dump x [], rest) | None -> None
-let mk0 load dump : codec = fun _ toks ->
+let mkg load dump : codec = fun st kinds toks ->
+  match load st kinds toks with Some (x, rest) -> Some (dump x [], rest) | None -> None
+let mk0 load dump : codec = fun _ _ toks ->
   match load toks with Some (x, rest) -> Some (dump x [], rest) | None -> None
+let rec nat_of_int n = if n <= 0 then O else S (nat_of_int (n - 1))
 
 let codecs : (Stdlib.String.t * (codec * n)) list = [
   "C_Polyhedron", (mk load_polyhedron dump_polyhedron, N0);
   "NNC_Polyhedron", (mk load_polyhedron dump_polyhedron, N0);
-  "Grid", (mk (fun st -> load_grid st []) dump_grid, N0);
+  "Grid", (mkg load_grid dump_grid, N0);
   "BD_Shape_mpq", (mk load_bds_mpq dump_bds_mpq, N0);
   "BD_Shape_mpz", (mk load_bds_Z dump_bds_Z, N0);
   "Octagonal_Shape_mpq", (mk load_oct_mpq dump_oct_mpq, N0);
@@ -79,7 +82,9 @@ let () =
           let ok2 = (match Stdlib.String.split_on_char ' ' l2 with ["D2"; o] -> o = "1" | _ -> failwith ("bad D2 line: " ^ l2)) in
           let d2 = read_block ic in
           let l3 = input_line ic in
-          let ok3, tflags = (match Stdlib.String.split_on_char ' ' l3 with ["D3"; o; t] -> o = "1", int_of_string t | _ -> failwith ("bad D3 line: " ^ l3)) in
+          let ok3, tflags, tkinds = (match Stdlib.String.split_on_char ' ' l3 with
+                                     | "D3" :: o :: t :: ks -> o = "1", int_of_string t, List.map (fun k -> nat_of_int (int_of_string k)) (List.filter (fun k -> k <> "") ks)
+                                     | _ -> failwith ("bad D3 line: " ^ l3)) in
           let d3 = read_block ic in
           let lm = input_line ic in
           let muts = (match Stdlib.String.split_on_char ' ' lm with "MUTS" :: r -> List.map int_of_string (List.filter (fun s -> s <> "") r) | _ -> failwith ("bad MUTS line: " ^ lm)) in
@@ -88,17 +93,17 @@ let () =
            | Some (c, fresh) ->
                let t1 = tokens d1 in
                let s1 = List.map cstr t1 in
-               let blank = (match c N0 s1 with
+               let blank = (match c N0 [] s1 with
                             | Some (rd, []) -> if same rd t1 then "OK" else "REDUMP@" ^ first_diff rd t1
                             | Some (_, _ :: _) -> "REST"
                             | None -> "LOADFAIL") in
-               let predict st okc dc = (match c st s1, okc with
+               let predict st ks okc dc = (match c st ks s1, okc with
                             | Some (rd, _), true -> let tc = tokens dc in if same rd tc then "OK" else "DIFF@" ^ first_diff rd tc
                             | None, false -> "OK"
                             | Some _, false -> "MODEL-ACCEPTS-CPP-REJECTS"
                             | None, true -> "MODEL-REJECTS-CPP-ACCEPTS") in
-               let freshr = predict fresh ok2 d2 in
-               let usedr = predict (n_of_int tflags) ok3 d3 in
+               let freshr = predict fresh [] ok2 d2 in
+               let usedr = predict (n_of_int tflags) tkinds ok3 d3 in
                Printf.printf "V %s %s blank=%s fresh=%s used=%s\n" idx cls blank freshr usedr;
                let arr = Array.of_list s1 in
                let n = Array.length arr in
@@ -106,8 +111,8 @@ let () =
                  let del = List.filteri (fun k _ -> k <> i) s1 in
                  let rep = List.mapi (fun k t -> if k = i then cstr "@@" else t) s1 in
                  ignore n;
-                 Printf.printf "M %s %d D %d\n" idx i (match c fresh del with Some _ -> 1 | None -> 0);
-                 Printf.printf "M %s %d R %d\n" idx i (match c fresh rep with Some _ -> 1 | None -> 0)) muts)
+                 Printf.printf "M %s %d D %d\n" idx i (match c fresh [] del with Some _ -> 1 | None -> 0);
+                 Printf.printf "M %s %d R %d\n" idx i (match c fresh [] rep with Some _ -> 1 | None -> 0)) muts)
       | _ -> ()
     done
   with End_of_file -> ());
